@@ -153,6 +153,41 @@ Theorem C20_cancel_once : forall pp pj fl evs,
 Proof. exact completes_once_and_cancel_once. Qed.
 Print Assumptions C20_cancel_once.
 
+(* a response changes the execution subscribed under its message id and no other *)
+Theorem C20_demux_only_registered_waiter : forall m k e',
+  match take_nth k (pending m) with
+  | Some ((id, _), _) => lookup id (subs m) <> Some e'
+  | None => True
+  end ->
+  nth_error (execs (mstep m (Respond k))) e' = nth_error (execs m) e'.
+Proof. exact demux_routes. Qed.
+Print Assumptions C20_demux_only_registered_waiter.
+
+(* nothing is lost: every execution that has not finished is subscribed (ids subscribed at most once) under the id of its
+   current request, and that request is on the wire of the current stream or its response is outstanding *)
+Theorem C20_no_lost_request : forall pp pj fl evs,
+  let m := mrun pp pj fl evs in
+  NoDup (obs_subs m) /\
+  forall e, running m e ->
+    exists id, waits m e id /\ In (id, e) (subs m) /\ (In id (live_ids m) \/ In id (map fst (pending m))).
+Proof. exact no_lost_request. Qed.
+Print Assumptions C20_no_lost_request.
+
+(* a non-retryable stream failure surfaces, as that failure, at every execution that was waiting *)
+Theorem C20_break_surfaces : forall pp pj fl evs x e,
+  retryable x = false -> running (mrun pp pj fl evs) e ->
+  exists y, nth_error (execs (mrun pp pj fl (evs ++ [Break x]))) e = Some y /\ est y = Finished (ORaisedExn x).
+Proof. exact break_surfaces_m. Qed.
+Print Assumptions C20_break_surfaces.
+
+(* after a retryable one every such execution is still running, subscribed, with a request on the new stream *)
+Theorem C20_break_retries : forall pp pj fl evs x e,
+  retryable x = true -> running (mrun pp pj fl evs) e ->
+  let m' := mrun pp pj fl (evs ++ [Break x]) in
+  running m' e /\ exists id, waits m' e id /\ In (id, e) (subs m') /\ In id (live_ids m').
+Proof. exact break_retries_m. Qed.
+Print Assumptions C20_break_retries.
+
 (* non-vacuity *)
 Example C20_stream_example_benign :
   Forall benign [BreakBefore XServiceUnavailable; NoFault; BreakAfter XUnknown] /\
@@ -173,3 +208,6 @@ Example C20_stream_example_manager :
   let m := mrun [] [] [] [Submit 0; Submit 0; Process 1; Process 0; Break XServiceUnavailable; Process 1; Respond 0; Cancel 0] in
   obs_dones m = [(7, 1, OReturned (RResult 1)); (8, 0, OCancelled)] /\ obs_cancels m = [(8, 0)] /\ creates m = [1].
 Proof. vm_compute. repeat split; reflexivity. Qed.
+Example C20_stream_example_running :
+  running (mrun [] [] [] [Submit 0; Submit 1]) 1 /\ retryable XNotFound = false /\ retryable XUnknown = true.
+Proof. split; [eexists; split; reflexivity|split; reflexivity]. Qed.
